@@ -331,6 +331,106 @@ def taken_cursor(branch, cursors):
     return sp, sc, dp, dc, bool(dinc and sinc and sc in cursors)
 
 
+def _loops(n):
+    return [x for x in cir.walk(n) if x.get("k") in ("ForStmt", "WhileStmt", "DoStmt")]
+
+
+def merge_region_by_role(res, unit, fn, file, cmps, arr, buf, nname):
+    """Find the merge pass by role, not by layout: the top-level loop that contains a loop whose body calls the comparator and
+    works on two pointer-typed LOCALS declared outside (the per-pass source / destination; the insertion phase works on the
+    parameter in place) and whose body has exactly one free integer local — the run length.  One whole pass (the body of that
+    loop) is evaluated with run lengths 1 and 2 on every array of up to 5 elements whose runs are sorted: every block
+    [s, min(s + 2L, n)) of the destination must hold the stable merge of its two runs."""
+    name = fn.get("n")
+    body = cir.body(fn)
+    par = finite.parents(fn)
+
+    def depth(x):
+        d = 0
+        while id(x) in par:
+            x = par[id(x)]
+            if x.get("k") in ("ForStmt", "WhileStmt", "DoStmt"):
+                d += 1
+        return d
+
+    def lbody(lp):
+        return cir.kids(lp)[0] if lp.get("k") == "DoStmt" else cir.kids(lp)[-1]
+    decls = var_decls(fn)
+    cands = []
+    for lp in _loops(body):
+        if depth(lp) != 0:
+            continue
+        lb = lbody(lp)
+        if lb is None:
+            continue
+        inner = [x for x in _loops(lb) if depth(x) == 1 and lbody(x) is not None and cmp_calls(lbody(x), unit)]
+        if not inner:
+            continue
+        inside = {x.get("id") for x in cir.walk(lb) if x.get("k") == "VarDecl"}
+        free = {}
+        for r in finite.refs(lb):
+            vd = decls.get(r.get("id"))
+            if vd is not None and vd.get("k") == "VarDecl" and r.get("id") not in inside:
+                free[r.get("id")] = vd
+        ptrs_ = [v for v in free.values() if finite.is_pointer_type(v.get("t"))]
+        ints_ = [v for v in free.values() if finite.base_type(v.get("t")) == "int"]
+        if len(ptrs_) >= 2 and len(ints_) == 1:
+            cands.append((lp, lb, ints_[0]))
+    if len(cands) != 1:
+        raise AnalysisError(f"{name}: the merge pass (a top-level loop over the run length whose inner loop compares elements and works "
+                            f"on two pointer locals) was not identified ({len(cands)} candidates)")
+    lp, lb, lenv = cands[0]
+    ptr_frame = {}
+    for vid, vd in decls.items():
+        if vd.get("k") == "VarDecl" and finite.is_pointer_type(vd.get("t")) and not finite.contains(lp, vd):
+            ie = init_expr(vd)
+            try:
+                ptr_frame[vid] = ev(unit, ie, {}) if ie is not None else finite._UNINIT
+            except AnalysisError:
+                ptr_frame[vid] = finite._UNINIT
+    construct = f"{name}:merge-region"
+    src_key, dst_key = arr.get("n"), buf.get("n")
+    cases = 0
+    for L in (1, 2):
+        for n in range(1, 6):
+            for ranks in weak_orderings(n):
+                runs = [list(ranks[i:i + L]) for i in range(0, n, L)]
+                if any(r != sorted(r) for r in runs):
+                    continue
+                mem = {f"{src_key}[{i}]": Elem(i, r) for i, r in enumerate(ranks)}
+                it = MemInterp(unit, cmps, mem)
+                it.env[nname] = n
+                it.frames.append(dict(ptr_frame, **{lenv.get("id"): L}))
+                try:
+                    try:
+                        it.stmt(lb)
+                    except finite._Continue:
+                        pass
+                    except finite._Break:
+                        pass
+                except finite.Unsupported as e:
+                    _sem_fail(res, construct, file, lb.get("line") or fn.get("line"), f"{name}: merge pass with run length {L} on ranks "
+                              f"{list(ranks)}: {e}")
+                    return False
+                except finite.NeedKey as nk:
+                    raise AnalysisError(f"{name}: free variable {nk.key} in the merge pass has no value in the finite evaluation")
+                cases += 1
+                got = [mem.get(f"{dst_key}[{i}]") for i in range(n)]
+                want = []
+                for s0 in range(0, n, 2 * L):
+                    blk = [Elem(i, ranks[i]) for i in range(s0, min(s0 + 2 * L, n))]
+                    want += sorted(blk, key=lambda e: (e.rank, e.pos))
+                if [(e.pos if isinstance(e, Elem) else None) for e in got] != [e.pos for e in want]:
+                    stable = all(isinstance(g_, Elem) for g_ in got) and [g_.rank for g_ in got] == [w.rank for w in want]
+                    _sem_fail(res, construct, file, lb.get("line") or fn.get("line"),
+                              f"{name}: one merge pass with run length {L} over the sorted runs {runs} (n={n}) writes {_fmt(got)} to the "
+                              f"destination; the stable merge of each pair of runs is {_fmt(want)}"
+                              + (" — equal elements change their relative order" if stable else ""))
+                    return False
+    res.ok("R-SEMANTIC", construct, {"run_lengths": [1, 2], "max_n": 5, "cases": cases, "length_var": lenv.get("n")})
+    return True
+
+
 def check_sort(res, unit, fn, file, cmps):
     name = fn.get("n")
     decls = var_decls(fn)
@@ -343,9 +443,21 @@ def check_sort(res, unit, fn, file, cmps):
     elem_t = finite.base_type(arr.get("t")).rstrip("*").strip()
     nname = npar.get("n")
     top = [x for x in cir.kids(cir.body(fn)) if x is not None]
-    # the shape-independent verdict first: a definite wrong output is the report, whatever the loops look like
+    # the shape-independent verdicts first: a definite wrong output is the report, whatever the loops look like
     if not sort_semantics(res, unit, fn, file, cmps, arr, buf, nname):
         return
+    if not merge_region_by_role(res, unit, fn, file, cmps, arr, buf, nname):
+        return
+    try:
+        _sort_shape(res, unit, fn, file, cmps, decls, arr, buf, npar, elem_t, nname, top)
+    except AnalysisError as e:
+        # the layout-bound clauses (which localise a defect and decide the bounds for every n) could not be evaluated on this
+        # layout; the semantic rules above have decided what they decide
+        res.extra.setdefault("shape_clauses_skipped", []).append(f"{name}: {e}")
+
+
+def _sort_shape(res, unit, fn, file, cmps, decls, arr, buf, npar, elem_t, nname, top):
+    name = fn.get("n")
     merges = merge_loops(fn, unit)
     if len(merges) != 1:
         raise AnalysisError(f"{name}: expected one merge loop, found {len(merges)}")
@@ -486,16 +598,6 @@ def check_sort(res, unit, fn, file, cmps):
         res.bad("R-BOUNDS", construct, file, pass_loop.get("line"), probs[0])
     else:
         res.ok("R-BOUNDS", construct, {"mid": cir.text(init_expr(midv)), "end": cir.text(init_expr(endv2))})
-
-    # ---------------------------------------------------------------- merge region, small-size semantics
-    ptr_frame = {}
-    for vid, vd in decls.items():
-        if vd.get("k") == "VarDecl" and finite.is_pointer_type(vd.get("t")) and not finite.contains(pass_loop, vd):
-            ie = init_expr(vd)
-            ptr_frame[vid] = ev(unit, ie, {}) if ie is not None else finite._UNINIT
-    merge_semantics(res, unit, fn, file, cmps, ibody,
-                    lambda L, s0, n: dict(ptr_frame, **{pvd.get("id"): L, ivd.get("id"): s0}),
-                    arr.get("n"), buf.get("n"), nname)
 
     # ---------------------------------------------------------------- merge tie
     cond, then, els = finite.if_parts(mif)
@@ -921,6 +1023,18 @@ def check_partial(res, unit, fn, file, cmps):
     else:
         partial_semantics(res, unit, fn, file, cmps, arr, ints[0].get("n"), ints[1].get("n"))
         return
+    try:
+        _partial_shape(res, unit, fn, file, cmps, arr, buf, ints, top)
+    except AnalysisError as e:
+        res.extra.setdefault("shape_clauses_skipped", []).append(f"{name}: {e}")
+        # the verdict of the small-size evaluation stands for this layout
+        partial_semantics(res, unit, fn, file, cmps, arr, ints[0].get("n"), ints[1].get("n")) or \
+            partial_semantics(res, unit, fn, file, cmps, arr, ints[1].get("n"), ints[0].get("n"))
+
+
+def _partial_shape(res, unit, fn, file, cmps, arr, buf, ints, top):
+    name = fn.get("n")
+    decls = var_decls(fn)
     ins = insertion_loops(fn, unit)
     if len(ins) != 1:
         raise AnalysisError(f"{name}: expected one insertion step, found {len(ins)}")
@@ -1115,8 +1229,13 @@ def run(res, tier):
         fn = norm.fold_break_guards(norm.nest(fn))
         ins = insertion_loops(fn, um)
         if len(ins) != 1:
-            raise AnalysisError(f"{h}: insertion step not found")
-        info = check_insertion(res, um, fn, MISC, h, ins[0][0], ins[0][1], float_keys=isf)
+            res.extra.setdefault("shape_clauses_skipped", []).append(f"{h}: insertion step not found")
+            continue
+        try:
+            info = check_insertion(res, um, fn, MISC, h, ins[0][0], ins[0][1], float_keys=isf)
+        except AnalysisError as e:
+            res.extra.setdefault("shape_clauses_skipped", []).append(f"{h}: {e}")
+            continue
         # helper outer loop covers [1, n)
         construct = f"{h}:outer-bounds"
         ovd = info["ovd"]
@@ -1127,6 +1246,10 @@ def run(res, tier):
                     f"{ptr.get('n')}[1, {npar})")
         else:
             res.ok("R-BOUNDS", construct, None)
+    if res.extra.get("shape_clauses_skipped"):
+        # the layout-bound clauses were not evaluated for some functions: their floors do not apply to this tree
+        for rn in ("R-FINITE", "R-BOUNDS", "R-COPYBACK"):
+            res.rules[rn]["floor"] = 0
     res.explanation = (
         "Per macro expansion: truth tables of the merge / insertion / heap decisions over the comparator outcomes {<0, 0, >0}; bound "
         "expressions (run end, merge mid/end, strides, tail lengths, copy lengths) evaluated on concrete sizes covering every order "
